@@ -75,6 +75,18 @@ Theorem C15_source_remote_request_is_model : forall w k m, nth_error (w_maps w) 
   if src_pdo_remote_request_sends (m_enabled m) (m_rtr m) false then w_sent w ++ [(m_cob m, [], true)] else w_sent w.
 Proof. exact src_pdo_remote_request_eq. Qed.
 
+Theorem C15_source_subscribe_is_model : forall w k m, nth_error (w_maps w) k = Some m ->
+  fst (step w (LSubscribe k)) =
+  if src_pdo_subscribe_calls (m_enabled m) false && src_net_subscribe_adds (has_sub (w_subs w) (m_cob m) k) false
+  then {| w_maps := w_maps w; w_subs := w_subs w ++ [(m_cob m, k)]; w_sent := w_sent w; w_cblog := w_cblog w |}
+  else w.
+Proof. exact src_pdo_subscribe_eq. Qed.
+
+Theorem C15_source_transmit_is_model : forall w k m ts, nth_error (w_maps w) k = Some m ->
+  w_sent (fst (step w (LTransmit k ts))) =
+  if src_pdo_transmit_sends false then w_sent w ++ [(m_cob m, m_data m, false)] else w_sent w.
+Proof. exact src_pdo_transmit_eq. Qed.
+
 (* ---- non-vacuity: producer map 0 and consumer map 1, layout [BOOLEAN:1, INTEGER16:16], consumer
    subscribed with two callbacks; the hypotheses of C15_end_to_end hold and the run gives -300 ---- *)
 Example C15_nv :
@@ -107,3 +119,5 @@ Print Assumptions C15_transmit_sends.
 Print Assumptions C15_rtr_rule.
 Print Assumptions C15_source_on_message_is_model.
 Print Assumptions C15_source_remote_request_is_model.
+Print Assumptions C15_source_subscribe_is_model.
+Print Assumptions C15_source_transmit_is_model.
